@@ -83,9 +83,36 @@ def rotate(cases, seed):
     return cases[k:] + cases[:k]
 
 
-def pmap(fn, cases, ctx, section=None, horizon=120, chunksize=None, pid=None):
-    """Run fn over all cases (complete enumeration); merge into ctx.  Returns number of cases."""
+def _call_idx(ic):
+    i, case = ic
+    r = _call(case)
+    return i, r
+
+
+def pmap(fn, cases, ctx, section=None, horizon=120, chunksize=None, pid=None, collect=False):
+    """Run fn over all cases (complete enumeration); merge into ctx.  Returns number of cases
+    (or, with collect=True, the list of Res.ret values aligned with `cases`)."""
     global _FN, _HOR, _PID
+    if collect:
+        cases = list(cases)
+        _FN, _HOR, _PID = fn, horizon, (pid or ctx.pid)
+        out = [None] * len(cases)
+        jobs = max(1, min(ctx.jobs, len(cases)))
+        idx = rotate(list(enumerate(cases)), ctx.seed)
+        if jobs == 1 or os.environ.get("VERIF_SERIAL"):
+            it = map(_call_idx, idx)
+            for i, r in it:
+                out[i] = r.ret
+                ctx.merge(r, section)
+            return out
+        if chunksize is None:
+            chunksize = max(1, min(64, len(cases) // (jobs * 8)))
+        mp = multiprocessing.get_context("fork")
+        with mp.Pool(jobs) as pool:
+            for i, r in pool.imap_unordered(_call_idx, idx, chunksize=chunksize):
+                out[i] = r.ret
+                ctx.merge(r, section)
+        return out
     cases = rotate(cases, ctx.seed)
     _FN, _HOR, _PID = fn, horizon, (pid or ctx.pid)
     jobs = max(1, min(ctx.jobs, len(cases)))
